@@ -368,6 +368,8 @@ def check(R, F, prop, S=None):
         if new_c:
             parts.append("step(s) added or changed: " + ", ".join("%s x%d" % (c[:160], have["calls"][c] - want["calls"].get(c, 0)) for c in new_c[:4]))
         R.bad(key, "%s differs from the reviewed reference in %s: %s" % (fkey(path), body.file, " | ".join(parts))[:1500], [body.where()])
+    R.fp_stats = {"reference": os.path.relpath(p, V), "scope": scope, "functions_in_reference": len(fz), "functions_found": len(cur), "functions_unchanged": n_ok,
+                  "decisions_in_reference": sum(sum(v["dec"].values()) for v in fz.values()), "significant_calls_in_reference": sum(sum(v["calls"].values()) for v in fz.values())}
     if n_ok:
         R.ok("fp/unchanged", "%d of %d functions of the anchor files have the reference decisions and significant calls" % (n_ok, len(fz)), [])
     if len(cur) < 0.85 * len(fz):
